@@ -246,6 +246,7 @@ def _history(N: int, K: int | None, e: int | None, steps: list[int]) -> None:
     bounds="one idle connection whose keep-alive expiry has elapsed / that the server has closed; the next request arrives and is cancelled at a symbolic step; the back end's close() suspends before it takes effect",
     outside="more than one stale connection",
     stubs=("model runtime; simulated back end whose aclose() has a checkpoint before the close takes effect",),
+    also=("C05", "C06"),
 )
 def expired_closed_under_cancel(cz: int, one_shot: bool) -> None:
     """
@@ -276,6 +277,11 @@ def expired_closed_under_cancel(cz: int, one_shot: bool) -> None:
         cancelled = isinstance(callers[0].exc, vrt.Cancelled)
         P.cover("cancelled" if cancelled else "undisturbed")
         sig = f"stale:{ct}:{why}:{'cancelled' if cancelled else 'undisturbed'}"
+        # C05 view: however the arriving request ended, the pool no longer counts it and nothing is stuck
+        P.check(not rt.deadlocked and scen.n_requests(su.pool) == 0, "request-forgotten",
+                lambda: f"{sig}:request-still-counted:{scen.pool_summary(su.pool)}", prop="C05")
+        stuck = scen.stuck_connections(su.pool)
+        P.check(not stuck, "no-stuck-connection", lambda: f"{sig}:stuck:{stuck}", prop="C05")
         # the stale connection is never kept, and never dropped unclosed - whatever happens to the request whose
         # arrival made the pool look at it
         stale_pooled = [x for x in su.pool.connections if not x.is_closed() and x.has_expired()]
@@ -285,4 +291,5 @@ def expired_closed_under_cancel(cz: int, one_shot: bool) -> None:
                 gone = not any(s is sock for s in su.net.open_socks())
                 still_pooled = len(su.pool.connections) > 0 and any(getattr(getattr(x, "_connection", None), "_network_stream", None) is not None
                                                                     and not x.is_closed() and x.has_expired() for x in su.pool.connections)
-                P.check(gone or still_pooled, "stale-connection-closed-when-dropped", lambda: f"{sig}:dropped-unclosed")
+                for prop in ("C09", "C06"):
+                    P.check(gone or still_pooled, "stale-connection-closed-when-dropped", lambda: f"{sig}:dropped-unclosed", prop=prop)
